@@ -15,8 +15,8 @@ from checks import solver
 ALGS = solver.ALGS
 
 
-def chain_problem(rng, singular):
-    n = rng.randint(5, 8)
+def chain_problem(rng, singular, n=None):
+    n = n or rng.randint(5, 8)
     rows = []
     for i in range(n - 1):
         r = [0] * n
@@ -141,6 +141,15 @@ def k_histories(ctx):
         p = chain_problem(ctx.rng, singular=(pi % 2 == 1))
         for alg in ALGS:
             hs = [gen_history(ctx.rng, p, ctx.rng.choice([3, 6, 12, 20]), allow_minx=True) for _ in range(nhist)]
+            # directed scenarios: regularisation mode changed before / after the decomposition exists, cofactors outside the
+            # envelope before and after a reset
+            n_ = p["n"]
+            sub = "minx %d %s" % (n_ - 1, " ".join(str(i) for i in range(1, n_)))
+            hs += [[sub, "x", "minxall", "qxx 1 %d" % n_, "x", "qxx 2 2"],
+                   ["minxall", "x", sub, "qxx 1 %d" % n_, "x"],
+                   [sub, "defect", "minxall", "x", "q0xx 1 %d" % n_],
+                   ["qxx 1 %d" % n_, "qxx %d 1" % n_, "qxx 2 %d" % n_, "reset", "qxx 1 %d" % n_, "qxx 2 %d" % n_],
+                   ["x", "minxall", "x", sub, "x", "minxall", "qxx 1 1"]]
             if pi < 2:
                 # exhaustive short histories over a small alphabet
                 n = p["n"]
@@ -180,6 +189,130 @@ def k_histories(ctx):
             break
     ctx.sample({"algorithm": "envelope", "history": gen_history(ctx.rng, p, 8, True), "problem_n": p["n"], "problem_defect": p["defect"]})
     ctx.obligation(bad == 0, "K:history-vs-fresh")
+
+
+def k_switch(ctx):
+    """one solver object used for several DIFFERENT problems in a row (what LocalNetwork does with its solver after
+    update_points / update_observations): every answer equals that of a fresh object on the current problem"""
+    exe = solver.build_harness(ctx, sanitize=True)
+    rng = ctx.rng
+    bad = 0
+    nseq = 6 if ctx.quick else 60
+    for si in range(nseq):
+        n = rng.randint(5, 8)
+        same_n = rng.random() < 0.7
+        probs = [chain_problem(rng, singular=rng.random() < 0.5, n=n if same_n else None) for _ in range(rng.choice([2, 2, 3]))]
+        if si % 3 == 0:
+            probs[0] = chain_problem(rng, singular=True, n=n); probs[1] = chain_problem(rng, singular=False, n=n)     # dependent column disappears
+        if si % 3 == 1:
+            probs[0] = chain_problem(rng, singular=False, n=n); probs[1] = chain_problem(rng, singular=False, n=n)    # regular -> regular, same size
+        for alg in ALGS:
+            script = []
+            expect = []      # (line index of the history answer, line index of the fresh answer, op, problem index)
+            line = 0
+            hist_q = []
+            for k, p in enumerate(probs):
+                script += solver.problem_script(p); line += 1
+                if k == 0:
+                    script.append("new base %s" % alg); line += 1
+                else:
+                    script.append("reset"); line += 1
+                nn, mm = p["n"], p["m"]
+                ops = ["x", "defect", "qxx 1 %d" % nn, "qxx %d 1" % nn, "qxx 2 %d" % (nn - 1), "q0xx 1 %d" % nn, "qbb 1 %d" % mm, "ssq", "r"] + \
+                      ["lindep %d" % i for i in range(1, nn + 1)] + ["qxx %d %d" % (rng.randint(1, nn), rng.randint(1, nn)) for _ in range(3)]
+                rng.shuffle(ops)
+                for op in ops:
+                    script.append(op); hist_q.append((line, op, k)); line += 1
+            fresh_q = []
+            for (hl, op, k) in hist_q:
+                script += solver.problem_script(probs[k]) + ["new base %s" % alg, op]
+                fresh_q.append(line + 2); line += 3
+            script.append("free")
+            rc, out, err = vlib.sh([exe], inp="\n".join(script) + "\n", timeout=300)
+            lines = out.split("\n")
+            ctx.count(("switch", alg, tuple(tuple(map(tuple, p["A"])) for p in probs)), nontrivial=True)
+            ctx.hist("switch_algorithm", alg)
+            failure = None
+            if rc != 0 or len(lines) < line:
+                failure = {"what": "the harness died (sanitizer report or crash) while one solver object was reused for another problem", "stderr": err[-1500:], "rc": rc}
+            else:
+                for (hl, op, k), fl_ in zip(hist_q, fresh_q):
+                    h, f = solver.parse_line(lines[hl]), solver.parse_line(lines[fl_])
+                    if not same(vals(h), vals(f)):
+                        failure = {"what": "answer to '%s' on problem %d of the sequence differs from a fresh object on that problem" % (op, k + 1),
+                                   "history_answer": vals(h), "fresh_answer": vals(f)}
+                        break
+            if failure:
+                bad += 1
+                ctx.violation({"kind": "K:solver-reuse", "problems": probs, "algorithm": alg, "script": script[:400], **failure},
+                              "%s reused across problems: %s (defects %s)" % (alg, failure["what"], [p["defect"] for p in probs]))
+            if bad >= 3:
+                break
+        if bad >= 3:
+            break
+    ctx.obligation(bad == 0, "K:solver-reuse")
+
+
+def k_rawsvd(ctx):
+    """class SVD (lib/matvec/svd.h) used directly: histories of min_x(subset) / min_x() / solve / q_xx against fresh objects"""
+    exe = solver.build_harness(ctx, sanitize=True)
+    rng = ctx.rng
+    bad = 0
+    for pi in range(6 if ctx.quick else 40):
+        p = chain_problem(rng, singular=(pi % 3 != 2))
+        n = p["n"]
+        G = solver.null_basis(p["A"], n)
+        subs = []
+        for _ in range(3):
+            S = sorted(rng.sample(range(1, n + 1), rng.randint(max(1, p["defect"]), n)))
+            if solver.resolves(G, [s_ - 1 for s_ in S]):
+                subs.append("minx %d %s" % (len(S), " ".join(map(str, S))))
+        if not subs:
+            subs = ["minxall"]
+        hs = []
+        for s1 in subs:
+            hs += [[s1, "x", "minxall", "x", "qxx 1 %d" % n], ["x", s1, "x", "qxx 2 2", "minxall", "qxx 2 2", "x"], [s1, "qxx 1 1", "minxall", "qxx 1 1"],
+                   ["minxall", "x", s1, "x"], [s1, "defect", "minxall", "x"]]
+        for ops in hs:
+            script = solver.problem_script(p) + ["new rawsvd"] + ops
+            qs = []
+            mode = None
+            for op in ops:
+                if op.split()[0] in ("minx", "minxall"):
+                    mode = op
+                else:
+                    qs.append((mode, op))
+            for mode, op in qs:
+                script += ["new rawsvd"] + ([mode] if mode else []) + [op]
+            rc, out, err = vlib.sh([exe], inp="\n".join(script) + "\n", timeout=120)
+            lines = out.split("\n")
+            ctx.count(("rawsvd", tuple(map(tuple, p["A"])), tuple(ops)), nontrivial=True)
+            failure = None
+            k = 2
+            hist = []
+            for op in ops:
+                hist.append(solver.parse_line(lines[k]) if k < len(lines) else ("crash",)); k += 1
+            ha = [h for h, op in zip(hist, ops) if op.split()[0] not in ("minx", "minxall")]
+            fa = []
+            for mode, op in qs:
+                k += 1 + (1 if mode else 0)
+                fa.append(solver.parse_line(lines[k]) if k < len(lines) else ("crash",)); k += 1
+            if rc != 0 or any(h[0] == "crash" for h in hist + fa):
+                failure = {"what": "the harness died (sanitizer report or crash)", "stderr": err[-1500:], "rc": rc}
+            else:
+                for (mode, op), h, f in zip(qs, ha, fa):
+                    if not same(vals(h), vals(f), 1e-8):
+                        failure = {"what": "class SVD: answer to '%s' (regularisation %s) after this history differs from a fresh object" % (op, mode or "default"),
+                                   "history_answer": vals(h), "fresh_answer": vals(f)}
+                        break
+            if failure:
+                bad += 1
+                ctx.violation({"kind": "K:svd-history", "problem": p, "history": ops, **failure}, "%s; history=%s" % (failure["what"], ops))
+            if bad >= 3:
+                break
+        if bad >= 3:
+            break
+    ctx.obligation(bad == 0, "K:svd-class-history")
 
 
 def classify(alg, ops, failure):
@@ -256,6 +389,10 @@ def run(ctx):
     ctx.check_proofs(extra_files=["CacheModel"])
     k_mtf(ctx)
     k_histories(ctx)
-    return ctx.finish(rule="K(mtf): all key sequences of length<=5 over 4 keys + random longer ones; K(history): random histories (length 3..20) and all "
+    k_switch(ctx)
+    k_rawsvd(ctx)
+    return ctx.finish(rule="K(reuse): one solver object reset to 2-3 different problems in a row (singular -> regular, regular -> regular of the same size, "
+                           "different sizes), every query compared with a fresh object; K(scenarios): regularisation changed before / after the decomposition, "
+                           "cofactors outside the envelope around a reset; K(mtf): all key sequences of length<=5 over 4 keys + random longer ones; K(history): random histories (length 3..20) and all "
                            "histories of length 2 (3 thorough) over a 9-op alphabet, on sparse chain problems (regular / defect>=1, elements outside the "
                            "envelope), 4 algorithms, under ASan+UBSan; non-trivial = at least two ops / two distinct keys; distinct by content")
